@@ -193,23 +193,36 @@ def evTime : Event → Int
 /-- the events up to the instant `T` -/
 def cut (T : Int) (evs : List Event) : List Event := evs.filter fun ev => decide (evTime ev ≤ T)
 
+/-- the instants at which K5 looks: the end of the window and every instant at which something relevant happened -/
+def k5Instants (tr : Link.Trace) (endT : Int) : List Int := endT :: Link.dedupAdj ((tr.filter Link.relevantK5).map (·.t))
+
+/-- the instances K5 looks at on a prefix of the trace: those a callback or a processed PTR mentions -/
+def k5Svcs (p : Link.Trace) : List Link.Svc := Link.dedupSvc (Link.cbSvcs p ++ Link.dlvSvcs p)
+
 /-- browser `b`, created at `tb`, and the cache of its host are a run of the C04 model (`browserRunFrom`) over the C05/C06 cache:
 `pre` is what the cache saw before the browser existed, `evs` what came after.  `cb`, `cbOther`: the Added / Removed events of `b`
 in the link trace up to any instant are the callbacks of the run on the events up to that instant (services of other types are
 never reported).  `cache`: C05/C06's expiry semantics in link terms — when the link trace says the host holds the pointer (last
 PTR processed positive and younger than its TTL) the record's life per `track` is running, and when `track` says it is running
-the last PTR processed is positive and not older than its TTL plus one cleanup period (the periodic purge). -/
-structure CacheRun (tr : Link.Trace) (tb : Int) (b : Link.Br) : Prop where
+the last PTR processed is positive and not older than its TTL plus one cleanup period (the periodic purge).  All clauses speak
+about the instants and the instances K5 looks at (`k5Instants`, `k5Svcs`: finitely many, so the clauses can be evaluated on a
+concrete trace; unbounded in `T` they would be contradictory as soon as the browser holds an instance at the end of the trace: the
+model either purges the record some day — and reports Removed, which the finite trace never shows — or never does, and `track` runs
+past every grace period). -/
+structure CacheRun (tr : Link.Trace) (endT : Int) (tb : Int) (b : Link.Br) : Prop where
   ex : ∃ (lower : String → String) (possible : String → List String) (types : List String) (tyName : String)
       (aliasOf : Link.Svc → String) (pre evs : List Event),
     tyName ∈ types ∧ WFHistory lower possible types pre evs ∧
     (∀ s, NoFlush lower (ptrRec tyName (aliasOf s)) (pre ++ [.purge tb] ++ evs)) ∧
-    (∀ T s, tb ≤ T → Link.neverClosed (tr.filter fun e => e.t ≤ T) b.host = true → s.ty = b.ty →
+    (∀ T ∈ k5Instants tr endT, tb ≤ T → Link.neverClosed (tr.filter fun e => e.t ≤ T) b.host = true →
+      ∀ s ∈ k5Svcs (tr.filter fun e => e.t ≤ T), s.ty = b.ty →
       Link.live (tr.filter fun e => e.t ≤ T) b s
         = reportedLive lower (browserRunFrom lower possible pre tb types (cut T evs)).batches tyName (aliasOf s)) ∧
-    (∀ T s, tb ≤ T → Link.neverClosed (tr.filter fun e => e.t ≤ T) b.host = true → s.ty ≠ b.ty →
+    (∀ T ∈ k5Instants tr endT, tb ≤ T → Link.neverClosed (tr.filter fun e => e.t ≤ T) b.host = true →
+      ∀ s ∈ k5Svcs (tr.filter fun e => e.t ≤ T), s.ty ≠ b.ty →
       Link.live (tr.filter fun e => e.t ≤ T) b s = false) ∧
-    (∀ T s, tb ≤ T → Link.neverClosed (tr.filter fun e => e.t ≤ T) b.host = true → s.ty = b.ty →
+    (∀ T ∈ k5Instants tr endT, tb ≤ T → Link.neverClosed (tr.filter fun e => e.t ≤ T) b.host = true →
+      ∀ s ∈ k5Svcs (tr.filter fun e => e.t ≤ T), s.ty = b.ty →
       (Link.heldFresh Link.Cfg.paper (tr.filter fun e => e.t ≤ T) b.host s T = true →
         (track lower (ptrRec tyName (aliasOf s)) (pre ++ [.purge tb] ++ cut T evs)).isSome = true) ∧
       ((track lower (ptrRec tyName (aliasOf s)) (pre ++ [.purge tb] ++ cut T evs)).isSome = true →
@@ -223,11 +236,23 @@ theorem mem_browses_filter (tr : Link.Trace) (T : Int) (x : Int × Link.Br)
   exact ⟨Link.mem_browses.mpr h.1, by simpa using h.2⟩
 
 /-- **K5 from the C04 / C05 / C06 models.** -/
-theorem K5_of_cacheRuns (tr : Link.Trace) (endT : Int) (hruns : ∀ x ∈ Link.browses tr, CacheRun tr x.1 x.2) :
+theorem mem_dedupAdj : ∀ (l : List Int) (x : Int), x ∈ Link.dedupAdj l → x ∈ l
+  | [], x, h => by simp [Link.dedupAdj] at h
+  | [a], x, h => by simpa [Link.dedupAdj] using h
+  | a :: b :: r, x, h => by
+    unfold Link.dedupAdj at h
+    split at h
+    · exact List.mem_cons_of_mem _ (mem_dedupAdj (b :: r) x h)
+    · rcases List.mem_cons.mp h with rfl | h
+      · exact List.mem_cons_self
+      · exact List.mem_cons_of_mem _ (mem_dedupAdj (b :: r) x h)
+
+theorem K5_of_cacheRuns (tr : Link.Trace) (endT : Int)
+    (hruns : ∀ x ∈ Link.browses tr, CacheRun tr endT x.1 x.2) :
     Link.K5 Link.Cfg.paper tr endT = true := by
   unfold Link.K5
   rw [List.all_eq_true]
-  intro T _
+  intro T hTmem
   unfold Link.k5At
   rw [List.all_eq_true]
   intro x hx
@@ -237,7 +262,7 @@ theorem K5_of_cacheRuns (tr : Link.Trace) (endT : Int) (hruns : ∀ x ∈ Link.b
   | true =>
     simp only [Bool.not_true, Bool.false_or]
     rw [List.all_eq_true]
-    intro s _
+    intro s hsmem
     obtain ⟨lower, possible, types, tyName, aliasOf, pre, evs, hty, hwf, hnf, hcb, hother, hcache⟩ := (hruns x hxtr).ex
     by_cases hs : s.ty = x.2.ty
     · have hwfT : WFHistory lower possible types pre (cut T evs) :=
@@ -251,9 +276,9 @@ theorem K5_of_cacheRuns (tr : Link.Trace) (endT : Int) (hruns : ∀ x ∈ Link.b
         rcases List.mem_append.mp hev with h | h
         · exact List.mem_append_left _ h
         · exact List.mem_append_right _ (List.mem_filter.mp h).1
-      have hlive := hcb T s hxT hopen hs
+      have hlive := hcb T hTmem hxT hopen s hsmem hs
       rw [live_eq_track lower possible types pre x.1 (cut T evs) hwfT tyName hty (aliasOf s) hnfT] at hlive
-      obtain ⟨h1, h2⟩ := hcache T s hxT hopen hs
+      obtain ⟨h1, h2⟩ := hcache T hTmem hxT hopen s hsmem hs
       have hsb : (s.ty == x.2.ty) = true := by simp [hs]
       rw [hsb, Bool.and_true, Bool.and_true, hlive]
       cases hf : Link.heldFresh Link.Cfg.paper (tr.filter fun e => e.t ≤ T) x.2.host s T with
@@ -263,7 +288,7 @@ theorem K5_of_cacheRuns (tr : Link.Trace) (endT : Int) (hruns : ∀ x ∈ Link.b
         cases ht : (track lower (ptrRec tyName (aliasOf s)) (pre ++ [.purge x.1] ++ cut T evs)).isSome with
         | true => rw [h2 ht]; rfl
         | false => rfl
-    · have hlive := hother T s hxT hopen hs
+    · have hlive := hother T hTmem hxT hopen s hsmem hs
       have hsb : (s.ty == x.2.ty) = false := by simp [hs]
       rw [hsb, hlive]
       simp
@@ -551,28 +576,39 @@ theorem cache_clause (lower : String → String) (p : Link.Trace) (h : Nat) (s :
 /-- `CacheRun` with its `cache` clause replaced by what it follows from: the PTRs the link trace shows the host processing are the
 datagrams of the history that carry a copy of the pointer record (`dlv`, instant by instant); at most one copy per datagram; the
 history is sorted in time; and the periodic purge runs: after any instant `x ≥ tb` there is a purge within one cleanup period -/
-structure CacheRunFine (tr : Link.Trace) (tb : Int) (b : Link.Br) : Prop where
+structure CacheRunFine (tr : Link.Trace) (endT : Int) (tb : Int) (b : Link.Br) : Prop where
   ex : ∃ (lower : String → String) (possible : String → List String) (types : List String) (tyName : String)
       (aliasOf : Link.Svc → String) (pre evs : List Event),
     tyName ∈ types ∧ WFHistory lower possible types pre evs ∧
     (∀ s, NoFlush lower (ptrRec tyName (aliasOf s)) (pre ++ [Event.purge tb] ++ evs)) ∧
-    (∀ T s, tb ≤ T → Link.neverClosed (tr.filter fun e => e.t ≤ T) b.host = true → s.ty = b.ty →
+    (∀ T s, tb ≤ T → T ≤ endT → Link.neverClosed (tr.filter fun e => e.t ≤ T) b.host = true → s.ty = b.ty →
       Link.live (tr.filter fun e => e.t ≤ T) b s
         = reportedLive lower (browserRunFrom lower possible pre tb types (cut T evs)).batches tyName (aliasOf s)) ∧
-    (∀ T s, tb ≤ T → Link.neverClosed (tr.filter fun e => e.t ≤ T) b.host = true → s.ty ≠ b.ty →
+    (∀ T s, tb ≤ T → T ≤ endT → Link.neverClosed (tr.filter fun e => e.t ≤ T) b.host = true → s.ty ≠ b.ty →
       Link.live (tr.filter fun e => e.t ≤ T) b s = false) ∧
     (∀ s, OneCopy lower (ptrRec tyName (aliasOf s)) (pre ++ [Event.purge tb] ++ evs)) ∧
     (pre ++ [Event.purge tb] ++ evs).Pairwise (fun x y => evTime x ≤ evTime y) ∧
-    (∀ T s, tb ≤ T → Link.neverClosed (tr.filter fun e => e.t ≤ T) b.host = true → s.ty = b.ty →
+    (∀ T s, tb ≤ T → T ≤ endT → Link.neverClosed (tr.filter fun e => e.t ≤ T) b.host = true → s.ty = b.ty →
       Link.lastSome (Link.heldEv b.host s) (tr.filter fun e => e.t ≤ T)
         = (scan lower (ptrRec tyName (aliasOf s)) (pre ++ [Event.purge tb] ++ cut T evs)).map fun x => (x.1, x.2.1)) ∧
-    (∀ x T, tb ≤ x → x + 10000 ≤ T → Link.neverClosed (tr.filter fun e => e.t ≤ T) b.host = true →
+    (∀ x T, tb ≤ x → x + 10000 ≤ T → T ≤ endT → Link.neverClosed (tr.filter fun e => e.t ≤ T) b.host = true →
       ∃ now, x ≤ now ∧ now ≤ T ∧ Event.purge now ∈ evs)
 
-theorem CacheRun_of_fine (tr : Link.Trace) (tb : Int) (b : Link.Br) (h : CacheRunFine tr tb b) : CacheRun tr tb b := by
+theorem CacheRun_of_fine (tr : Link.Trace) (endT : Int) (hle : ∀ e ∈ tr, e.t ≤ endT) (tb : Int) (b : Link.Br) (h : CacheRunFine tr endT tb b) :
+    CacheRun tr endT tb b := by
   obtain ⟨lower, possible, types, tyName, aliasOf, pre, evs, hty, hwf, hnf, hcb, hother, hone, hsorted, hdlv, hpurge⟩ := h.ex
-  refine ⟨⟨lower, possible, types, tyName, aliasOf, pre, evs, hty, hwf, hnf, hcb, hother, ?_⟩⟩
-  intro T s hT hopen hs
+  have hend : ∀ T ∈ k5Instants tr endT, T ≤ endT := by
+    intro T hTmem
+    rcases List.mem_cons.mp hTmem with rfl | h
+    · exact Int.le_refl _
+    · have := mem_dedupAdj _ _ h
+      rw [List.mem_map] at this
+      obtain ⟨e, he, rfl⟩ := this
+      exact hle e (List.mem_filter.mp he).1
+  refine ⟨⟨lower, possible, types, tyName, aliasOf, pre, evs, hty, hwf, hnf,
+    fun T hTm hT hopen s _ hs => hcb T s hT (hend T hTm) hopen hs, fun T hTm hT hopen s _ hs => hother T s hT (hend T hTm) hopen hs, ?_⟩⟩
+  intro T hTm hT hopen s _ hs
+  have hTe := hend T hTm
   have hsub : (pre ++ [Event.purge tb] ++ cut T evs).Sublist (pre ++ [Event.purge tb] ++ evs) :=
     List.Sublist.append (List.Sublist.refl _) List.filter_sublist
   apply cache_clause lower _ b.host s T tb (ptrRec tyName (aliasOf s)) rfl pre (cut T evs)
@@ -592,9 +628,9 @@ theorem CacheRun_of_fine (tr : Link.Trace) (tb : Int) (b : Link.Br) (h : CacheRu
         exact hT
     · have := (List.mem_filter.mp hev).2
       simpa using this
-  · exact hdlv T s hT hopen hs
+  · exact hdlv T s hT hTe hopen hs
   · intro x hx hxT
-    obtain ⟨now, h1, h2, h3⟩ := hpurge x T hx hxT hopen
+    obtain ⟨now, h1, h2, h3⟩ := hpurge x T hx hxT hTe hopen
     exact ⟨now, h1, List.mem_filter.mpr ⟨h3, decide_eq_true h2⟩⟩
 
 end Zc.Bridge
